@@ -122,6 +122,12 @@ def _base_name(n):
     return b.id if isinstance(b, ast.Name) else None
 
 
+def _calls_on_self(x):
+    """a call `self.m(..)` inside the inlined value: may read any attribute"""
+    return isinstance(x, ast.Call) and isinstance(x.func, ast.Attribute) and \
+        isinstance(x.func.value, ast.Name) and x.func.value.id == 'self'
+
+
 def inline_temps(func, keep=(), names_only=False):
     """see module docstring. `keep`: names never inlined. `names_only`: copy propagation only
     (`x = y` with y a plain name), e.g. the parameter bindings left by sa.inline."""
@@ -139,6 +145,7 @@ def inline_temps(func, keep=(), names_only=False):
     name_stores = []          # (pos, name)
     heap_stores = []          # (pos, text)
     call_events = []          # (pos, names possibly updated in place by a call made for effect)
+    recvs = {}                # pos of such a call -> 'self.attr' for `self.attr.m(..)`
     nested = []
     for n in ast.walk(f):
         if n is f:
@@ -196,6 +203,10 @@ def inline_temps(func, keep=(), names_only=False):
                     mutated.add(arg.id)
                     ev.add(arg.id)
             call_events.append((_pos(n), ev))
+            if isinstance(n.value.func, ast.Attribute) and isinstance(
+                    n.value.func.value, ast.Attribute) and \
+                    _base_name(n.value.func.value) in ('self', 'cls'):
+                recvs[_pos(n)] = ast.unparse(n.value.func.value)
     for n in nested:
         for x in ast.walk(n):
             if isinstance(x, ast.Name):
@@ -340,8 +351,18 @@ def inline_temps(func, keep=(), names_only=False):
                 # expression reads, `f(x)` / `x.m()` may update x in place
                 heap_roots = {h.split('.')[0].split('[')[0] for h in heap}
                 for p2, ev in call_events:
-                    if end < p2 < last and ((ev & fv & heap_roots) or
-                                            (ev - {'self', 'cls'}) & fv):
+                    if not (end < p2 < last):
+                        continue
+                    rc = recvs.get(p2)
+                    if rc is not None and not ((ev - {'self', 'cls'}) & fv):
+                        # `self.X.m(..)`: only what hangs below self.X can change, unless the
+                        # value itself calls a method of self (which may read anything)
+                        if any(h == rc or h.startswith(rc + '.') or h.startswith(rc + '[')
+                               for h in heap) or any(_calls_on_self(x) for x in ast.walk(expr)):
+                            ok = False
+                            break
+                        continue
+                    if (ev & fv & heap_roots) or (ev - {'self', 'cls'}) & fv:
                         ok = False
                         break
         if not ok:
